@@ -85,7 +85,7 @@ def main():
 
 NA = {}
 # properties whose rule set is considered complete enough to claim (others stay not_applicable until then)
-CLAIMED = {'C01', 'C02', 'C03', 'C04', 'C05', 'C06', 'C07', 'C08', 'C09', 'C10', 'C11', 'C12', 'C13', 'C14', 'C15', 'C16', 'C18', 'C19', 'C20'}
+CLAIMED = {'C01', 'C02', 'C03', 'C04', 'C05', 'C06', 'C07', 'C08', 'C09', 'C10', 'C11', 'C12', 'C13', 'C14', 'C15', 'C16', 'C17', 'C18', 'C19', 'C20'}
 
 if __name__ == '__main__':
     main()
